@@ -77,6 +77,7 @@ def _digest_post(c):
 contract(
     "dvc_data.hashfile.tree:Tree.digest",
     params=dict(self=Tree, with_meta=TBool, name=TStr),
+    requires=lambda c: __import__("contracts.state", fromlist=["alg_name"]).alg_name(c.name),  # `name` is an algorithm name
     raises={"NotImplementedError": (None, None), "FileNotFoundError": (None, None)},
     modifies=lambda c: [("Tree.hash_info", c.self), ("Tree.oid", c.self), ("Tree.fs", c.self), ("Tree.path", c.self), ("HashesCache.table", None)],
     ensures=_digest_post,
